@@ -75,7 +75,7 @@ class C19(Property):
             "(origin-spanning or whole circular record) with >=1 origin-spanning area or gene, or some row holds >=2 "
             "areas; distinct by canonical input")
     TRUSTED = [
-        "area strings irrelevant to the geometry (prefix, category, tool, css) are not modelled or observed",
+        "css classes are not modelled or observed (product, prefix, category and tool of the areas are)",
         "`get_description` is stubbed in the harness (HTML rendering); dna/translation fields are not observed",
         "the order of `region.candidate_clusters`, `region.subregions` and `region.cds_children` is taken as delivered "
         "by the real objects (the theorems hold for every order); `get_unique_protoclusters` is modelled: the delivered "
@@ -144,7 +144,9 @@ class C19(Property):
             core = self.rand_interval(rng, ext[0], ext[1], max(step // 2, 1))
             if rng.random() < 0.04:     # malformed on purpose: core not inside the extent
                 core = (max(ext[0] - 1, 0), core[1]) if rng.random() < 0.5 else (core[0], min(core[1] + 1, wlen))
-            protos.append({"loc": place(ext), "core": place(core), "product": f"p{i}"})
+            protos.append({"loc": place(ext), "core": place(core), "product": f"p{i}",
+                           "tool": rng.choice(["rule-based-clusters", "tool"]),
+                           "category": rng.choice(["PKS", "NRPS", "other"])})
         # two *different* protoclusters with the same extent and product: a detected cluster and a sideloaded
         # annotation of it, or the same product found twice with different cores
         if protos and rng.random() < 0.3:
@@ -174,7 +176,8 @@ class C19(Property):
             ext = self.rand_interval(rng, 0, wlen, step)
             if layout == "whole" and rng.random() < 0.3:
                 ext = (0, wlen)
-            subs.append({"loc": place(ext), "label": f"s{i}"})
+            subs.append({"loc": place(ext), "label": rng.choice([f"s{i}", f"s{i}", ""]),
+                         "sideloaded": rng.random() < 0.4, "tool": rng.choice(["tool", "external"])})
         if not cands and not subs:
             subs.append({"loc": place(self.rand_interval(rng, 0, wlen, step)), "label": "s0"})
         genes = []
@@ -303,12 +306,16 @@ class C19(Property):
         if kind in ("proto", "cand"):
             out["core"] = common.location_json(feature.core_location)
         if kind == "proto":
-            out["product"] = feature.product
+            from antismash.common.secmet.features.protocluster import SideloadedProtocluster
+            out.update({"product": feature.product, "tool": feature.tool, "category": feature.product_category,
+                        "sideloaded": isinstance(feature, SideloadedProtocluster)})
         elif kind == "cand":
             out["single"] = feature.kind == feature.kinds.SINGLE
             out["product"] = f"CC {feature.get_candidate_cluster_number()}: {feature.kind}"
         else:
-            out["product"] = feature.label
+            from antismash.common.secmet.features.subregion import SideloadedSubRegion
+            out.update({"product": feature.label, "tool": feature.tool,
+                        "sideloaded": isinstance(feature, SideloadedSubRegion)})
         return out
 
     @staticmethod
@@ -316,7 +323,8 @@ class C19(Property):
         return {"start": int(a["start"]), "end": int(a["end"]), "kind": KINDS.get(a["kind"], a["kind"]),
                 "height": int(a["height"]), "nstart": int(a.get("neighbouring_start", a["start"])),
                 "nend": int(a.get("neighbouring_end", a["end"])), "product": a.get("product", ""),
-                "group": int(a.get("group", 0))}
+                "group": int(a.get("group", 0)), "prefix": a.get("prefix", ""), "category": a.get("category", ""),
+                "tool": a.get("tool", "")}
 
     def run_impl(self, case: Dict[str, Any]) -> Dict[str, Any]:
         logging.disable(logging.CRITICAL)       # `add_region` logs refused inputs
@@ -325,6 +333,7 @@ class C19(Property):
         from antismash.common.secmet.features import CandidateCluster, Protocluster, Region, SubRegion
         from antismash.common.secmet.features.candidate_cluster.structures import CandidateClusterKind
         from antismash.common.secmet.features.protocluster import SideloadedProtocluster
+        from antismash.common.secmet.features.subregion import SideloadedSubRegion
         from antismash.common.secmet.test.helpers import DummyCDS, DummyRecord
         from antismash.outputs.html import js
         js.get_description = lambda *args, **kwargs: ""     # renders HTML, irrelevant here
@@ -342,11 +351,13 @@ class C19(Property):
                     protos.append(SideloadedProtocluster(common.make_location(p["core"]), common.make_location(p["loc"]),
                                                          "external", p["product"]))
                 else:
-                    protos.append(Protocluster(common.make_location(p["core"]), common.make_location(p["loc"]), "tool",
-                                               p["product"], 10, 10, "rule"))
+                    protos.append(Protocluster(common.make_location(p["core"]), common.make_location(p["loc"]),
+                                               p.get("tool", "tool"), p["product"], 10, 10, "rule",
+                                               product_category=p.get("category", "other")))
             for p in protos:
                 rec.add_protocluster(p)
-            subs = [SubRegion(common.make_location(s["loc"]), "tool", label=s["label"]) for s in case["subs"]]
+            subs = [(SideloadedSubRegion if s.get("sideloaded") else SubRegion)(
+                common.make_location(s["loc"]), s.get("tool", "tool"), label=s["label"]) for s in case["subs"]]
             for s in subs:
                 rec.add_subregion(s)
             if case["mode"] == "pipeline":
@@ -508,6 +519,8 @@ class C19(Property):
                 nontrivial = True
             tags.append("scope-areas" if sa else "out-of-scope-areas")
             tags.append("scope-genes" if sg else "out-of-scope-genes")
+            if info["genes"]:
+                tags.append("genes-by-location-theorem" if inf["genes_loc_ok"] else "genes-by-view-theorem-only")
         return Judgement(corr, spec_ok, in_scope=in_scope, nontrivial=nontrivial, tags=tuple(sorted(set(tags))),
                          detail="; ".join(details)[:3000])
 
